@@ -178,7 +178,7 @@ MAXP = [3.3, 6.6, 7, 11, 50]
 TSS = [0, 0.5, 0.8, 0.8, 0.9, 0.999]
 NOISE = [0, 0, 0.1, 0.5, 2, 10]
 VS = [120, 208, 208, 240, 277.5]
-TP = [0.5, 1, 5, 5, 15, 60]
+TP = [0.5, 1, 5, 5, 15, 60, 7, 45, 90, 2.5, 25]  # incl. periods that do not divide 60 (and > 60)
 EPS = [0.0, 1e-12, -1e-12, 1e-9, -1e-9, 1e-6, -1e-6, 1e-3, -1e-3]
 
 
